@@ -239,6 +239,11 @@ def _worker(chunk: List[dict]):
         info = _info(recipe)
         scope_n += sum(1 for s in info["scope"].values() if s)
         for s, d, m, b in _configs(recipe):
+            if not info["scope"][s] and (info["linear"] or m != "linear"):
+                # outside the value clause the library's behaviour is only recorded: one dtype, and no
+                # 1000-iteration fixed-point runs on divergent grammars
+                if d == "float32" or (m == "fixed-point" and b == "generous"):
+                    continue
             n += 1
             fl, st = check_one(recipe, s, d, m, b, info)
             fails.extend(fl)
